@@ -16,6 +16,14 @@ let n_of_string (s : string) : n =
   String.iter (fun ch -> acc := N.add (N.mul ten !acc) (n_of_int (Char.code ch - 48))) s;
   !acc
 
+(* decimal printing of numbers beyond OCaml's ints (value indexes up to 2^64-1) *)
+let string_of_n (x : n) : string =
+  let ten = n_of_int 10 in
+  let rec go x acc = match x with
+    | N0 -> acc
+    | _ -> go (N.div x ten) (String.make 1 (Char.chr (48 + int_of_n (N.modulo x ten))) ^ acc) in
+  match x with N0 -> "0" | _ -> go x ""
+
 let tokens (line : string) : string list =
   List.filter (fun s -> s <> "") (String.split_on_char ' ' line)
 
@@ -50,8 +58,8 @@ let c07 (lines : string list) =
        | ["CASE"; id; "CAP"; cap; "OVH"; ovh] ->
          flush_case hdr ops; go (Some (id, cap, int_of_string ovh)) [] rest
        | ["P"; k; sz; b] ->
-         go hdr (Put (n_of_int (int_of_string k), n_of_int (int_of_string sz), n_of_int (int_of_string b)) :: ops) rest
-       | ["G"; k] -> go hdr (Get (n_of_int (int_of_string k)) :: ops) rest
+         go hdr (Put (n_of_string k, n_of_int (int_of_string sz), n_of_int (int_of_string b)) :: ops) rest
+       | ["G"; k] -> go hdr (Get (n_of_string k) :: ops) rest
        | [] -> go hdr ops rest
        | _ -> failwith ("c07: bad line: " ^ l)) in
   go None [] lines
@@ -254,6 +262,21 @@ let dp (lines : string list) =
                        | Ok ix -> m_execute ix q | Err -> Err | Panic -> Panic | Hang -> Hang) in
               pr_result "HQ" (qid ^ sfx) r) [(".a", e1); (".b", e2)];
             go rest
+          | "QMOD" ->
+            let qid = next c in let ds = next c in let w = writer_of (next c) in
+            let pre = (next c = "preload") in
+            let e1 = next_expr c in
+            let rdgb () = (if next c <> "GB" then failwith "expected GB"); let m = next_int c in List.init m (fun _ -> next_str c) in
+            let gb1 = rdgb () in
+            if next c <> "THEN" then failwith "expected THEN";
+            let e2 = next_expr c in
+            let gb2 = rdgb () in
+            List.iteri (fun j (e, gb) ->
+              let q = { q_expr = e; q_group_by = gb } in
+              let r = (match get_index ds w pre with
+                       | Ok ix -> m_execute ix q | Err -> Err | Panic -> Panic | Hang -> Hang) in
+              pr_result "QM" (Printf.sprintf "%s.%d" qid j) r) [(e1, gb1); (e2, gb2); (e2, []); (e2, gb1)];
+            go rest
           | "QVAL" ->
             let qid = next c in
             let k = next_int c in
@@ -285,6 +308,27 @@ let dp (lines : string list) =
             pr_schema "SS" qid (spec_schema (Hashtbl.find datasets ds));
             go rest
           | "REOPEN" -> go rest
+          | "RAWKEYS" ->
+            (* the file format: value of key I, header keys, number of V keys *)
+            let qid = next c in let ds = next c in let w = writer_of (next c) in
+            (match get_store ds w with
+             | Ok st ->
+               let hex l = String.concat "" (List.map (fun b -> Printf.sprintf "%02x" (int_of_n b)) l) in
+               (match m_store_count st with
+                | Some n -> pr "RAWKEYS %s I %s HDR IS NV %d SHAPE ok\n" qid (hex (count_value n)) (int_of_n (m_store_nvals st))
+                | None -> pr "RAWKEYS %s NOCOUNT\n" qid)
+             | Err -> pr "RAWKEYS %s ERR\n" qid | Panic -> pr "RAWKEYS %s PANIC\n" qid | Hang -> pr "RAWKEYS %s HANG\n" qid);
+            go rest
+          | "CURSOR" ->
+            let qid = next c in let n = next_int c in
+            let pairs = List.init n (fun _ -> let h = n_of_string (next c) in let r = n_of_string (next c) in (h, r)) in
+            let keys = cursor_order (List.map (fun (h, r) -> temp_key h r) pairs) in
+            (* a key put twice is stored once *)
+            let rec dedup = function a :: (b :: _ as t) -> if a = b then dedup t else a :: dedup t | l -> l in
+            let keys = dedup keys in
+            pr "CURSOR %s %d" qid (List.length keys);
+            List.iter (fun k -> let (h, r) = temp_key_decode k in pr " %s %s" (string_of_n h) (string_of_n r)) keys;
+            pr "\n"; go rest
           | "IDS" ->
             let qid = next c in let ds = next c in let w = writer_of (next c) in
             let rows = Hashtbl.find datasets ds in
